@@ -243,8 +243,8 @@ func ruleDecoderBounds(c *Ctx, r *Report, prefix string) {
 		o.rel("lzma-header-length", roleLenOf(data), roleConst(13), token.NEQ, "classic LZMA header length != 13")
 		fDC := c.Field("lzma", "header.dictCap")
 		fSize := c.Field("lzma", "header.size")
-		o.rel("lzma-header-dictcap-sign", roleFieldLoad(fDC), roleConst(0), token.LSS, "dictionary size does not fit an int")
-		o.rel("lzma-header-size-sign", roleFieldLoad(fSize), roleConst(0), token.LSS, "uncompressed size > 2^63-1 (and not the all-ones 'unknown' value)")
+		o.rel("lzma-header-dictcap-sign", roleFieldValue(c, fDC), roleConst(0), token.LSS, "dictionary size does not fit an int")
+		o.rel("lzma-header-size-sign", roleFieldValue(c, fSize), roleConst(0), token.LSS, "uncompressed size > 2^63-1 (and not the all-ones 'unknown' value)")
 		o.mustCheck("lzma-header-props", calleeIs(c.Func("lzma", "PropertiesForCode")), "properties byte validated by PropertiesForCode")
 	}
 	// ---- chunk header length tests ----
